@@ -29,6 +29,9 @@ def canon_cond(w, lab):
             if is_call(x) and (x[1].split('::')[-1] in ('with_span', 'with_file', 'map_err') or (x[1].split('::')[-1] == 'map' and ('Result' in x[1] or 'Option' in x[1]))) and x[2]:
                 x = x[2][0]
                 continue
+            if is_call(x) and x[1].split('::')[-1] == 'transpose' and x[2] and isinstance(x[2][0], tuple) and x[2][0][0] == 'agg' and x[2][0][1].endswith('Option::Some') and x[2][0][2]:
+                x = x[2][0][2][0]      # Some(r).transpose() is Ok exactly when r is
+                continue
             if is_call(x) and x[1].split('::')[-1] in ('ok_or', 'ok_or_else') and x[2]:
                 x = x[2][0]
                 kind = 'O'
@@ -57,6 +60,12 @@ def canon_cond(w, lab):
             return ('%s(%s, %s)' % (op, N(a), N(b)), 'T' if truth else 'F')
         if is_call(w):
             last = w[1].split('::')[-1]
+            # x.is_some() / is_none() / is_ok() / is_err() are the tests "x is Some / None / Ok / Err" of a match on x
+            tests = {'is_some': ('Some', 'None'), 'is_none': ('None', 'Some'), 'is_ok': ('Ok', 'Err'), 'is_err': ('Err', 'Ok')}
+            if last in tests and len(w[2]) == 1 and ('Option' in w[1] or 'Result' in w[1]):
+                return (N(w[2][0]), tests[last][0] if truth else tests[last][1])
+            if last == 'is_empty' and len(w[2]) == 1:
+                return ('Eq(0_usize, len(%s))' % N(w[2][0]), 'T' if truth else 'F')
             if last in ('ne', 'eq', 'lt', 'le', 'gt', 'ge') and len(w[2]) == 2:
                 a, b = w[2]
                 ty = ''
@@ -71,6 +80,9 @@ def canon_cond(w, lab):
                     a, b = b, a
                 return ('%s%s(%s, %s)' % (last, ty, N(a), N(b)), 'T' if truth else 'F')
         return (N(w), 'T' if truth else 'F')
+    if is_call(w) and w[1].split('::')[-1] == 'entry' and len(w[2]) == 2 and lab in ('Occupied', 'Vacant'):
+        # match map.entry(k) { Occupied / Vacant } is the test map.contains_key(k)
+        return ('HashMap.contains_key(%s, %s)' % (N(w[2][0]), N(w[2][1])), 'T' if lab == 'Occupied' else 'F')
     return (N(w), lab)
 
 
@@ -99,6 +111,75 @@ def _eta(path):
     return out
 
 
+_ACC = {}
+_ACC_ON = [False]     # accessor inlining only for reviewed-table rows (rules that look for a text keep the written names)
+
+
+def _accessor(callee, args):
+    """A call of a local function that only projects its argument (`as_inner(&self) -> &self.0`, `get(self) -> self.0`) is
+    the projection itself."""
+    fx = _FX[0]
+    if not _ACC_ON[0]:
+        return None
+    cf = fx.F.get(callee) if fx is not None else None
+    if cf is None or cf.macro or cf.argc != len(args) or cf.argc == 0:
+        return None
+    key = (id(fx), callee)
+    if key not in _ACC:
+        tmpl = None
+        try:
+            res = Explorer(cf, facts=fx, max_paths=4).run()
+            if len(res) == 1 and res[0][0] == 'RET' and not res[0][1].conds and not [e for e in res[0][1].events if e[0] == 'call']:
+                r = res[0][2]
+                ok = isinstance(r, tuple) and r[0] in ('field', 'param')
+                x = r
+                while ok and isinstance(x, tuple) and x[0] == 'field':
+                    x = x[1]
+                if ok and isinstance(x, tuple) and x[0] == 'param':
+                    tmpl = r
+        except Exception:
+            tmpl = None
+        _ACC[key] = tmpl
+    tmpl = _ACC[key]
+    if tmpl is None:
+        return None
+
+    def sub(t):
+        if t[0] == 'param':
+            return args[t[1]]
+        return ('field', sub(t[1]), t[2])
+    return sub(tmpl)
+
+
+_LAM = {}
+
+
+def _lam(v):
+    """A closure with one path and no decision, as a lambda term: its body with the captured values substituted and its
+    own parameters named $1, $2..  (`|s| f(s, &unit, scope)` with unit = T::unit() and `|s| f(s, &T::unit(), scope)` are
+    the same term).  None for closures that branch."""
+    fx = _FX[0]
+    cf = fx.F.get(v[1][8:]) if fx is not None else None
+    if cf is None or cf.macro:
+        return None
+    key = (id(fx), v)
+    if key in _LAM:
+        return _LAM[key]
+    _LAM[key] = None      # recursion guard
+    out = None
+    try:
+        args = [v] + [('param', i, '$%d' % i) for i in range(1, cf.argc)]
+        res = Explorer(cf, facts=fx, max_paths=8).run(args=args)
+        if len(res) == 1 and res[0][0] == 'RET' and not res[0][1].conds and isinstance(res[0][2], tuple):
+            effs = [e for e in res[0][1].events if e[0] == 'call' and len(e) > 6 and e[6]]
+            if not effs or True:
+                out = ('lam', cf.argc - 1, norm(res[0][2]))
+    except Exception:
+        out = None
+    _LAM[key] = out
+    return out
+
+
 def norm(v):
     """Rendering form of a value inside a decision row: the payload of an Option/Result is written like the Option/Result
     itself (`x@Some.0`, `x?` and `x.ok_or(e)?` all read `x`) and error decorations are dropped, so that `?`, `ok_or(..)?` and
@@ -109,6 +190,15 @@ def norm(v):
         return norm(v[1][1])
     if v[0] == 'call' and v[1].split('::')[-1] in DECOR and v[2]:
         return norm(v[2][0])
+    if v[0] == 'call' and v[2] and (v[1].split('::')[-1] in ('as_deref', 'as_deref_mut') or
+                                  (v[1].split('::')[-1] == 'map' and len(v[2]) == 2 and isinstance(v[2][1], tuple) and v[2][1] and v[2][1][0] == 'fn' and v[2][1][1].split('::')[-1] in ('as_ref', 'deref', 'as_deref', 'borrow'))):
+        return norm(v[2][0])       # Option<Arc<T>> seen as Option<&T>: the same value
+    if v[0] == 'call' and v[1].split('::')[-1] == 'insert' and 'VacantEntry' in v[1] and len(v[2]) == 2:
+        e = v[2][0]
+        if isinstance(e, tuple) and e[0] == 'field' and isinstance(e[1], tuple) and e[1][0] == 'down' and e[1][2] == 'Vacant' and is_call(e[1][1]) and e[1][1][1].split('::')[-1] == 'entry':
+            m, k = e[1][1][2][0], e[1][1][2][1]
+            # entry(k) .. Vacant(e) => e.insert(v)  is  map.insert(k, v)
+            return norm(('call', 'std::collections::HashMap::insert', (m, k, v[2][1]), '', None))
     if v[0] == 'call' and v[1].split('::')[-1] == 'map' and len(v[2]) == 2 and ('Result' in v[1] or 'Option' in v[1]):
         f = norm(v[2][1])
         if isinstance(f, tuple) and f and f[0] == 'fn' and re.match(r'^[A-Z]', f[1].split('::')[-1]) and '<' not in f[1]:
@@ -118,12 +208,28 @@ def norm(v):
         e = _eta(v[1][8:])
         if e is not None:
             return e
+    if v[0] == 'agg' and v[1].startswith('closure:'):
+        lam = _lam(v)
+        if lam is not None:
+            return lam
     if v[0] == 'try':
         return norm(v[1])
+    if v[0] == 'call' and isinstance(v[1], str) and v[2]:
+        acc = _accessor(v[1], v[2])
+        if acc is not None:
+            return norm(acc)
     out = tuple(norm(x) if isinstance(x, tuple) else x for x in v)
-    if out[0] == 'call' and isinstance(out[1], str) and out[1].endswith('::write_fmt') and len(out[2]) == 2 and is_call(out[2][1]) and out[2][1][1].endswith('::from_str') and 'Arguments' in out[2][1][1]:
-        # write!(f, "literal") = f.write_str("literal")
-        out = (out[0], out[1][:-len('write_fmt')] + 'write_str', (out[2][0], out[2][1][2][0])) + out[3:]
+    if v[0] == 'call' and isinstance(v[1], str) and v[1].endswith('::write_fmt') and len(v[2]) == 2:
+        # what is written: literal text and displayed values in order (write!(f, "lit") = f.write_str("lit");
+        # write!(f, "{x}") with a constant or nested format_args! x = writing the text of x)
+        from .printer import fmt_pieces
+        ps = fmt_pieces(v[2][1])
+        if ps is not None:
+            items = tuple(('const', json.dumps(x, ensure_ascii=False), '&str') if isinstance(x, str) else norm(x[1]) for x in ps)
+            if len(items) == 1 and items[0][0] == 'const':
+                out = (v[0], v[1][:-len('write_fmt')] + 'write_str', (out[2][0], items[0])) + out[3:]
+            else:
+                out = (v[0], v[1][:-len('write_fmt')] + 'write', (out[2][0],) + items) + out[3:]
     if out[0] == 'call' and isinstance(out[1], str):
         # `new`, `get`, `from_str` .. of different types read the same by their last segment: keep the type of inherent methods
         m = re.match(r'^(?:\w+::)*([A-Z]\w*)(?:::<[^>]*>)?::(\w+)$', out[1])
@@ -183,7 +289,94 @@ def unq(t):
     return re.sub(r'\b[A-Z]\w*\.(?=\w+\()', '', t) if isinstance(t, str) else t
 
 
-def decision_table(ctx, fn, max_visits=1, full=None, plain=False):
+def _subst(v, x):
+    if not isinstance(v, tuple):
+        return v
+    if v == ('param', 1, '$1'):
+        return x
+    return tuple(_subst(y, x) for y in v)
+
+
+def _apply(f, x):
+    if isinstance(f, tuple) and f and f[0] == 'fn':
+        if re.match(r'^[A-Z]', f[1].split('::')[-1]) and '<' not in f[1]:
+            return ('agg', 'adt:' + f[1], (x,))
+        return norm(('call', f[1], (x,), f[2] if len(f) > 2 else '', None))
+    if isinstance(f, tuple) and f and f[0] == 'lam' and f[1] == 1:
+        return _subst(f[2], x)
+    return ('call', 'apply', (f, x), '', None)
+
+
+def expand_result(v, top=True, kind='R'):
+    """A returned combinator chain over Result/Option as the decisions it stands for:
+    x.and_then(f) = match x { Ok(v) => f(v), Err(e) => Err(e) },  x.map(f) = match x { Ok(v) => Ok(f(v)), e => e }.
+    Returns [(extra conditions, value or None for the failing side, text of the failed operand)]; one entry when there is
+    nothing to expand.  `v` is a normalised value."""
+    for _ in range(6):      # error decorations around the chain (raw, not yet normalised value)
+        if is_call(v) and v[1].split('::')[-1] in ('with_span', 'with_file', 'map_err') and v[2]:
+            v = v[2][0]
+        else:
+            break
+    if isinstance(v, tuple) and v and v[0] == 'try':
+        v = v[1]
+    if isinstance(v, tuple) and v and v[0] == 'call' and len(v[2]) == 2 and v[1].split('::')[-1].split('.')[-1] in ('ok_or', 'ok_or_else') and 'Option' in v[1]:
+        # x.ok_or(e) = match x { Some(v) => Ok(v), None => Err(e) }
+        x = norm(v[2][0])
+        fail = v[2][1]
+        if isinstance(fail, tuple) and fail and fail[0] == 'agg' and fail[1].startswith('closure:'):
+            fx = _FX[0]
+            cf = fx.F.get(fail[1][8:]) if fx is not None else None
+            if cf is not None:
+                rr = [r0 for k0, p0, r0 in Explorer(cf, facts=fx, max_paths=8).run() if k0 == 'RET']
+                if len(rr) == 1:
+                    fail = rr[0]
+        out = []
+        for conds, xv, failed in expand_result(v[2][0], top=False, kind='O'):
+            if xv is None:
+                out.append((conds, None, fail))
+            else:
+                payload = xv[2][0] if (isinstance(xv, tuple) and xv[0] == 'agg' and xv[1].endswith('Option::Some') and xv[2]) else xv
+                out.append((conds, ('agg', 'adt:std::result::Result::Ok', (payload,)), None))
+        return out
+    if isinstance(v, tuple) and v and v[0] == 'call' and len(v[2]) == 2 and v[1].split('::')[-1].split('.')[-1] in ('and_then', 'map') \
+            and ('Result' in v[1] or 'Option' in v[1]):
+        kind = 'O' if 'Option' in v[1] else 'R'
+        good, bad = ('Some', 'None') if kind == 'O' else ('Ok', 'Err')
+        is_map = v[1].split('::')[-1].split('.')[-1] == 'map'
+        out = []
+        for conds, xv, failed in expand_result(v[2][0], top=False, kind=kind):
+            if xv is None:
+                out.append((conds, None, failed))
+                continue
+            # xv stands for the payload (payload and carrier are written alike, see norm)
+            payload = xv[2][0] if (isinstance(xv, tuple) and xv[0] == 'agg' and xv[1].endswith(('Result::Ok', 'Option::Some')) and xv[2]) else xv
+            r = _apply(norm(v[2][1]), payload)
+            if is_map:
+                out.append((conds, ('agg', 'adt:std::%s' % ('option::Option::Some' if kind == 'O' else 'result::Result::Ok'), (r,)), None))
+            else:
+                for c2, r2, f2 in ([([], r, None)] if not (is_call(r) and r[1].split('::')[-1].split('.')[-1] in ('and_then', 'map')) else expand_result(r, top=True)):
+                    out.append((conds + c2, r2, f2))
+        return out
+    v = norm(v)
+    if isinstance(v, tuple) and v and v[0] == 'agg' and v[1].endswith(('Result::Err', 'Option::None')):
+        return [([], None, v)]
+    if top or not isinstance(v, tuple) or not v or v[0] == 'agg':
+        return [([], v, None)]
+    # an opaque Result/Option inside a chain: both outcomes
+    good, bad = ('Some', 'None') if kind == 'O' else ('Ok', 'Err')
+    return [(['%s=%s' % (S(v), good)], v, None), (['%s=%s' % (S(v), bad)], None, v)]
+
+
+def decision_table(ctx, fn, max_visits=1, full=None, plain=False, table=False):
+    prev = _ACC_ON[0]
+    _ACC_ON[0] = bool(table)
+    try:
+        return _decision_table(ctx, fn, max_visits, full, plain)
+    finally:
+        _ACC_ON[0] = prev
+
+
+def _decision_table(ctx, fn, max_visits=1, full=None, plain=False):
     """full: also havoc loop-carried variables at loop heads, record every call with its arguments (`trace`) and the
     final values of the loop-carried variables (`state`): used for printers and the text/debug-symbol plumbing."""
     if full is None:
@@ -219,15 +412,24 @@ def decision_table(ctx, fn, max_visits=1, full=None, plain=False):
         out = outcome(kind, norm(ret) if ret_kind(ret) != 'residual' else ret)
         if kind == 'RET' and isinstance(ret, tuple) and ret_kind(ret) == 'residual':
             # the error raised by the failing `?`: named by the decoration closest to the `?` (map_err / ok_or / ok_or_else)
-            x = ret[1]
-            for sub in walk(ret):
-                if sub[0] == 'try':
-                    x = sub
+            x = ret
+            for _ in range(6):
+                # innermost failing `?`: residual(.. try(residual(.. try(x)))) when the error came up through inlined helpers
+                inner = None
+                for sub in walk(x[1] if x[0] == 'residual' else x):
+                    if sub[0] == 'try':
+                        inner = sub[1]
+                        break
+                if inner is None:
                     break
-            while isinstance(x, tuple) and x and x[0] == 'try':
-                x = x[1]
+                x = inner
+                if not (isinstance(x, tuple) and x and x[0] == 'residual'):
+                    break
             vs = []
             for _ in range(8):
+                if isinstance(x, tuple) and x and x[0] == 'agg' and x[1].endswith(('Result::Err',)):
+                    vs = err_variants(x) + with_closure_errors(x)      # a literal Err(..) returned by an inlined helper
+                    break
                 if not is_call(x) or x[1].split('::')[-1] not in DECOR or not x[2]:
                     break
                 last = x[1].split('::')[-1]
@@ -256,9 +458,15 @@ def decision_table(ctx, fn, max_visits=1, full=None, plain=False):
         if full:
             tr = []
             for e in p.events:
-                if e[0] == 'call' and e[1].split('::')[-1] not in DECOR and len(e) > 6 and e[6]:
-                    a = ', '.join(_clip(N(x), 90) for x in e[2])
-                    tr.append('%s(%s)' % (e[1].split('::')[-1] if not e[1].startswith('<') else e[1].split('>::')[-1], _clip(a, 240)))
+                if e[0] == 'call' and e[1].endswith('::entry') and ('HashMap' in e[1] or 'BTreeMap' in e[1]):
+                    continue      # the look-up half of entry(): shows as the contains_key test; the write is VacantEntry::insert
+                if e[0] == 'call' and e[1].split('::')[-1] not in DECOR and ((len(e) > 6 and e[6]) or ('VacantEntry' in e[1] and e[1].endswith('::insert'))):
+                    nv = norm(('call', e[1], e[2], '', None))
+                    if nv[1].split('::')[-1].split('.')[-1] in ('panic', 'panic_fmt', 'panic_display', 'assert_failed', 'unreachable_display', 'expect_failed', 'unwrap_failed'):
+                        nv = (nv[0], nv[1], ())      # the message text (it names source variables) is not behaviour
+                    a = ', '.join(_clip(S(x), 90) for x in nv[2])
+                    nm = nv[1].split('::')[-1]
+                    tr.append('%s(%s)' % (nm.split('.')[-1] if not e[1].startswith('<') else nm, _clip(a, 240)))
             # effectful calls (a `&mut` argument or a unit result) in order, one entry per call.  Value-only calls are not listed:
             # they matter through the conditions, the returned value and the arguments of effectful calls they flow into
             row['trace'] = tr
@@ -275,6 +483,33 @@ def decision_table(ctx, fn, max_visits=1, full=None, plain=False):
                 v = p.env.get(loc)
                 if isinstance(v, tuple) and name in getattr(p, 'havocked', ()):
                     row['state'][name] = _clip(N(v), 120)
+        if kind == 'RET' and out.startswith('val') and isinstance(ret, tuple):
+            # decisions hidden in a returned and_then / map chain
+            ex = expand_result(ret)
+            rty = fn.locals[0] if fn.locals else ''
+            if rty.startswith('std::result::Result<'):
+                # `x` returned as the function's Result is `Ok(x?)`: the decision "x is Ok" and the payload (unit for Result<(), _>)
+                ex2 = []
+                for c0, x, f0 in ex:
+                    if x is not None and is_call(x):
+                        payload = ('agg', 'tuple', ()) if rty.startswith('std::result::Result<(),') else x
+                        ex2.append((c0 + ['%s=Ok' % S(x)], ('agg', 'adt:std::result::Result::Ok', (payload,)), None))
+                        ex2.append((c0 + ['%s=Err' % S(x)], None, x))
+                    else:
+                        ex2.append((c0, x, f0))
+                ex = ex2
+            if len(ex) > 1:
+                for extra, xv, failed in ex:
+                    r2 = dict(row)
+                    r2['conds'] = conds + extra
+                    if xv is None:
+                        r2['out'] = 'err:' + ','.join(dict.fromkeys(err_variants(failed) if isinstance(failed, tuple) else []))
+                        r2['value'] = ''
+                    else:
+                        r2['out'] = outcome('RET', xv)
+                        r2['value'] = _clip(S(xv), 360)
+                    rows.append(r2)
+                continue
         rows.append(row)
     if plain:
         for row in rows:
@@ -351,11 +586,17 @@ def compare(ctx, rid, paths, table, what, fields=ALL_FIELDS, rowsel=None):
             want = sorted(row_key(r, fields) for r in frozen['rows'])
             for q, qf in fx.F.items():
                 if '{closure#' in q and q not in known and not qf.macro:
-                    if sorted(row_key(r, fields) for r in decision_table(ctx, qf, frozen.get('max_visits', 1), bool(FULL.match(path)))) == want:
+                    if sorted(row_key(r, fields) for r in decision_table(ctx, qf, frozen.get('max_visits', 1), bool(FULL.match(path)), table=True)) == want:
                         fn = qf
                         break
             if fn is not None:
                 ctx.ob(rid, 'table:' + path, True, '%s: closure found as %s with the reviewed rows' % (what, fn.path), fn.where())
+                continue
+        if fn is not None and '{closure#' in path and path.split('::{closure#')[0] in fx.F:
+            _FX[0] = fx
+            res0 = Explorer(fn, facts=fx, max_paths=8).run()
+            if len(res0) == 1 and res0[0][0] == 'RET' and not res0[0][1].conds:
+                ctx.ob(rid, 'table:' + path, True, '%s: closure without a decision: rendered as a lambda term inside the rows of %s' % (what, path.split('::{closure#')[0]), fn.where())
                 continue
         if fn is None and '{closure#' in path and path.split('::{closure#')[0] in fx.F:
             # the closure is gone (its code was written inline, or replaced): the rows of the enclosing function, which render
@@ -365,10 +606,13 @@ def compare(ctx, rid, paths, table, what, fields=ALL_FIELDS, rowsel=None):
         if fn is None:
             ctx.ob(rid, 'fn-missing:' + path, False, 'front-end function listed in the guard table no longer exists', None)
             continue
+        if frozen is None and '{closure#' not in path and path not in ((getattr(fx, 'reviewed_fns', None) or {}).get('simfony') or {path}):
+            # a function that did not exist in the reviewed tree: its body is inlined into the rows of its callers
+            continue
         if frozen is None:
             ctx.ob(rid, 'fn-unlisted:' + path, False, 'function constructs errors but has no reviewed decision table', fn.where())
             continue
-        cur = decision_table(ctx, fn, frozen.get('max_visits', 1))
+        cur = decision_table(ctx, fn, frozen.get('max_visits', 1), table=True)
         frozen_rows = frozen['rows']
         if rowsel is not None:
             # the property depends on some arms of this function only: compare those rows
